@@ -11,6 +11,7 @@ import (
 	"encoding/json"
 	"fmt"
 	"math"
+	"reflect"
 	"sort"
 	"strconv"
 	"strings"
@@ -486,8 +487,9 @@ func structureOK(v rv) (bool, string) {
 // litCtx collects hoisted bindings (nested empty lists need an annotated binding: an inner `[]`
 // has no element type for the analyzer).
 type litCtx struct {
-	pre []string
-	n   int
+	pre  []string
+	n    int
+	open int // blocks the setup left open (loop origin): closed at the end of the program
 }
 
 func strLit(s string) string {
@@ -527,6 +529,17 @@ func floatLit(f float64) string {
 // lit renders a value as a source expression of type t. top: the expression is bound with an
 // annotation (an empty list is fine there).
 func (c *litCtx) lit(v rv, t ast.Type, top bool) string {
+	if top {
+		return c.litAt(v, t, 0)
+	}
+	return c.litAt(v, t, 2)
+}
+
+// litAt: lvl 0 = the expression is bound with an annotation, 1 = a direct element / field of such an
+// expression (the annotation still reaches a `none` there), 2+ = deeper (an empty list and `none`
+// have no type for the analyzer there: they are hoisted into annotated bindings).
+func (c *litCtx) litAt(v rv, t ast.Type, lvl int) string {
+	top := lvl == 0
 	switch v.K {
 	case "int":
 		if v.I < 0 {
@@ -549,7 +562,7 @@ func (c *litCtx) lit(v rv, t ast.Type, top bool) string {
 		if v.B {
 			op = "..="
 		}
-		return c.lit(vInt(v.I), tInt(), false) + op + c.lit(vInt(v.E), tInt(), false)
+		return c.litAt(vInt(v.I), tInt(), lvl+1) + op + c.litAt(vInt(v.E), tInt(), lvl+1)
 	case "list":
 		var in ast.Type = ast.NewUnknownType()
 		if lt, ok := t.(ast.ListType); ok {
@@ -569,7 +582,7 @@ func (c *litCtx) lit(v rv, t ast.Type, top bool) string {
 		}
 		parts := make([]string, len(v.L))
 		for i, x := range v.L {
-			parts[i] = c.lit(x, in, false)
+			parts[i] = c.litAt(x, in, lvl+1)
 		}
 		return "[" + strings.Join(parts, ", ") + "]"
 	case "obj":
@@ -585,18 +598,28 @@ func (c *litCtx) lit(v rv, t ast.Type, top bool) string {
 			if !ok {
 				kt = typeOfRv(v.M[k])
 			}
-			parts = append(parts, k+": "+c.lit(v.M[k], kt, false))
+			parts = append(parts, k+": "+c.litAt(v.M[k], kt, lvl+1))
 		}
 		return "new { " + strings.Join(parts, ", ") + " }"
 	case "opt":
 		if v.O == nil {
-			return "none"
+			if lvl <= 1 {
+				return "none"
+			}
+			tt := typeText(t)
+			if _, isOpt := t.(ast.OptionType); !isOpt || tt == "" {
+				tt = "?int"
+			}
+			name := fmt.Sprintf("n%d", c.n)
+			c.n++
+			c.pre = append(c.pre, fmt.Sprintf("let %s: %s = none;", name, tt))
+			return name
 		}
 		var in ast.Type = typeOfRv(*v.O)
 		if ot, ok := t.(ast.OptionType); ok {
 			in = ot.Inner
 		}
-		return "?" + c.lit(*v.O, in, false)
+		return "?" + c.litAt(*v.O, in, lvl+1)
 	case "fn":
 		return "fn() -> int { 1 }"
 	}
@@ -625,6 +648,9 @@ type expect struct {
 	// Alt: a second acceptable result (choices the property leaves open, e.g. rounding of ties)
 	Alt  *rv
 	Note string
+	// JSON: the result is JSON text and Val is the value it has to denote (compared as documents,
+	// not as text: layout, key order and number spelling belong to C13)
+	JSON bool
 }
 
 func runeLen(s string) int { return utf8.RuneCountInString(s) }
@@ -711,6 +737,77 @@ func interrupt(recv rv) expect {
 	return expect{Mode: mInterrupt, After: recv, HasAfter: true}
 }
 func noCrash(note string) expect { return expect{Mode: mNoCrash, Note: note} }
+
+// jnorm is the JSON document a value denotes, in the shape encoding/json decodes into: numbers as
+// float64, none / null as JSON null, Some(x) as x, lists as arrays (same length, same order), objects
+// and any-objects as objects with exactly their keys. ok=false for values without a JSON rendering
+// (ranges, functions, non-finite floats).
+func jnorm(v rv) (any, bool) {
+	switch v.K {
+	case "int":
+		return float64(v.I), true
+	case "float":
+		if math.IsNaN(v.F) || math.IsInf(v.F, 0) {
+			return nil, false
+		}
+		return v.F, true
+	case "bool":
+		return v.B, true
+	case "str":
+		return v.S, true
+	case "null":
+		return nil, true
+	case "opt":
+		if v.O == nil {
+			return nil, true
+		}
+		return jnorm(*v.O)
+	case "list":
+		out := make([]any, 0, len(v.L))
+		for _, x := range v.L {
+			j, ok := jnorm(x)
+			if !ok {
+				return nil, false
+			}
+			out = append(out, j)
+		}
+		return out, true
+	case "obj", "anyobj":
+		out := map[string]any{}
+		for k, x := range v.M {
+			j, ok := jnorm(x)
+			if !ok {
+				return nil, false
+			}
+			out[k] = j
+		}
+		return out, true
+	}
+	return nil, false
+}
+
+// jsonOf is the expectation of to_json / to_json_indent: JSON text that denotes the receiver. The
+// text itself (layout, key order, number format) is not modelled.
+func jsonOf(recv rv) expect {
+	if _, ok := jnorm(recv); !ok {
+		return noCrash("the value has no JSON rendering (range / function inside): only survival is demanded")
+	}
+	return expect{Mode: mValue, Val: recv.clone(), JSON: true, After: recv.clone(), HasAfter: true}
+}
+
+// judgeJSON compares JSON text with the document the value denotes.
+func judgeJSON(text string, v rv) (bool, string) {
+	want, _ := jnorm(v)
+	var got any
+	if err := json.Unmarshal([]byte(text), &got); err != nil {
+		return false, fmt.Sprintf("the result %q is not JSON text (%v)", text, err)
+	}
+	if !reflect.DeepEqual(got, want) {
+		w, _ := json.Marshal(want)
+		return false, fmt.Sprintf("the JSON text %s does not denote the receiver %s, which is the document %s (every element and every field appears, none / null as JSON null)", strings.Join(strings.Fields(text), " "), show(v), w)
+	}
+	return true, ""
+}
 
 // modelMember gives the expected result of recv.member(args...) (or of the field read when the
 // member is not a function). The receiver kind decides the table.
@@ -940,7 +1037,7 @@ func modelMember(recv rv, member string, args []rv) expect {
 			})
 			return val(vNull(), after)
 		case "to_json", "to_json_indent":
-			return noCrash("serialisation format belongs to C13")
+			return jsonOf(recv)
 		}
 	case "anyobj":
 		switch member {
@@ -967,8 +1064,10 @@ func modelMember(recv rv, member string, args []rv) expect {
 			e := val(out, same)
 			e.AsSet = true
 			return e
-		case "to_string", "to_json", "to_json_indent":
-			return noCrash("rendering of objects is map-ordered / serialisation belongs to C13")
+		case "to_json", "to_json_indent":
+			return jsonOf(recv)
+		case "to_string":
+			return noCrash("rendering of objects is map-ordered")
 		}
 	case "obj":
 		// a data field wins over a builtin member of the same name: the analyzer offers the member
@@ -985,8 +1084,10 @@ func modelMember(recv rv, member string, args []rv) expect {
 			e := val(out, same)
 			e.AsSet = true
 			return e
-		case "to_json", "to_json_indent", "to_string":
-			return noCrash("rendering of objects is map-ordered / serialisation belongs to C13")
+		case "to_json", "to_json_indent":
+			return jsonOf(recv)
+		case "to_string":
+			return noCrash("rendering of objects is map-ordered")
 		}
 		if x, ok := recv.M[member]; ok {
 			return val(x, same)
